@@ -59,12 +59,18 @@ func c08Run(raw []byte) (*Line, error) {
 	case 2:
 		l.I(len(c.Xs))
 		for _, x := range c.Xs {
-			l.F(float64(x)).F(mathx.Sign(float64(x)))
+			o := mathx.Sign(float64(x))
+			if o == 0 && math.Signbit(o) {
+				// the line format identifies -0 with +0; the documented result for x == 0 is the
+				// constant 0, so a negative zero is reported as the smallest negative number
+				o = -math.SmallestNonzeroFloat64
+			}
+			l.F(float64(x)).F(o)
 		}
 	case 3:
 		a, b := float64(c.A), float64(c.B)
-		if !(a > 0 && b > 0) || math.IsInf(a, 0) || math.IsInf(b, 0) {
-			return nil, fmt.Errorf("a, b must be positive and finite")
+		if !(a >= 0.05 && b >= 0.05 && a <= 300 && b <= 300) {
+			return nil, fmt.Errorf("a, b must lie in the property's range [0.05, 300]")
 		}
 		l.F(a).F(b).I(len(c.Xs))
 		for _, xf := range c.Xs {
@@ -124,7 +130,7 @@ func c08Run(raw []byte) (*Line, error) {
 		dir := 1.0
 		switch c.Fn {
 		case 1:
-			if !(b > 0) || math.IsInf(b, 0) || lo < 0 || hi > 1 {
+			if !(a >= 0.05 && b >= 0.05 && a <= 300 && b <= 300) || lo < 0 || hi > 1 {
 				return nil, fmt.Errorf("bad scan")
 			}
 			f = func(x float64) float64 { return mathx.BetaInc(x, a, b) }
@@ -412,7 +418,7 @@ func c08Gen(tier string, rng *rand.Rand, emit func(interface{})) {
 	gammaScan := []float64{0.7, 5, 120, 300}
 	if thorough {
 		cells = 1000000
-		betaScan = append(betaScan, [2]float64{0.05, 0.05}, [2]float64{1, 1}, [2]float64{0.5, 5000}, [2]float64{50.25, 0.5}, [2]float64{300, 0.05}, [2]float64{17, 230.5})
+		betaScan = append(betaScan, [2]float64{0.05, 0.05}, [2]float64{1, 1}, [2]float64{50.25, 0.5}, [2]float64{300, 0.05}, [2]float64{17, 230.5})
 		gammaScan = append(gammaScan, 0.05, 1, 2.5, 30, 75.5, 200.25)
 		for i := 0; i < 8; i++ {
 			betaScan = append(betaScan, [2]float64{c08Param(rng, 0.05, 300, 64), c08Param(rng, 0.05, 300, 64)})
@@ -440,6 +446,9 @@ func c08Gen(tier string, rng *rand.Rand, emit func(interface{})) {
 	}
 	for k := 1; k <= 300*step; k++ {
 		a := float64(k) / float64(step)
+		if a < 0.05 {
+			continue
+		}
 		b := []float64{0.5, 2.25, 30.75, 171.625}[k%4]
 		xs := []float64{0, 0.0625, 0.25, 0.5, 0.75, 0.9375, 1, a / (a + b), (a + 1) / (a + b + 2)}
 		emit(c08Case{Op: 3, A: F64(a), B: F64(b), Xs: c08SortedUnique(xs)})
